@@ -37,6 +37,7 @@ Definition waitpc (p : pc) : bool :=
 
 Definition U (s : gst) : Z := Z.of_nat (length (holders s)) + Z.of_nat (length (rq s)).
 Definition pb (s : gst) : Z := f_pb (dec (st s)).
+Definition dirty (s : gst) : Z := f_d (dec (st s)).
 Definition head_nb (s : gst) : Prop := match lst s with x :: _ => i_bar x = false | [] => False end.
 Definition head_bar (s : gst) : Prop := match lst s with x :: _ => i_bar x = true | [] => False end.
 Definition head_wt (s : gst) : Prop := match lst s with x :: _ => i_wt x <> 0 | [] => False end.
@@ -70,7 +71,8 @@ Definition pcinv (s : gst) (p : pc) : Prop :=
       bmode s = false /\ dw s = ow /\ 0 <= ow /\ pb s = 0 /\ (nx = 0 \/ nx = 1 \/ nx = 2) /\
       (nx = 1 -> head_nb s) /\ (nx = 2 -> head_bar s)
   | DN_xor _ ow => bmode s = false /\ dw s = ow /\ 0 <= ow /\ pb s = 0
-  | W_tail op | W_xor op | W_unlock op _ => opform s op
+  | W_tail op | W_xor op => opform s op
+  | W_unlock op _ => opform s op /\ (pb s = 1 -> 1 <= U s \/ dirty s = 1)
   | W_head op owned | W_next op owned =>
       Z.land op ENQ_BITS = ENQUEUED /\
       ((bmode s = true /\ owned = IN_BARRIER) \/
